@@ -14,6 +14,7 @@ package pubsub
 
 import (
 	"context"
+	"crypto/sha1"
 	"encoding/json"
 	"fmt"
 	"os"
@@ -145,6 +146,37 @@ type c19Writer struct {
 	f   *os.File
 	enc *json.Encoder
 	n   int
+	// run buffering: the lines of one run are held back until the run is complete, so that a
+	// run whose content (apart from its number) was already written for the same schedule
+	// is only counted (pure compression: Go map order makes most repetitions identical)
+	buffering bool
+	lines     [][]byte
+}
+
+func (w *c19Writer) begin() { w.buffering, w.lines = true, nil }
+
+// end writes the buffered run unless seen[hash of its content] is set; reports whether it wrote
+func (w *c19Writer) end(seen map[[20]byte]bool, force bool) bool {
+	w.buffering = false
+	h := sha1.New()
+	for _, l := range w.lines {
+		h.Write(l)
+	}
+	var key [20]byte
+	copy(key[:], h.Sum(nil))
+	if seen[key] && !force {
+		w.lines = nil
+		return false
+	}
+	seen[key] = true
+	for _, l := range w.lines {
+		if _, err := w.f.Write(l); err != nil {
+			panic(err)
+		}
+		w.n++
+	}
+	w.lines = nil
+	return true
 }
 
 func newC19Writer(path string) *c19Writer {
@@ -156,6 +188,19 @@ func newC19Writer(path string) *c19Writer {
 }
 
 func (w *c19Writer) emit(v interface{}) {
+	if w.buffering {
+		if m, ok := v.(map[string]interface{}); ok {
+			run := m["run"]
+			m["run"] = 0 // the run number is not part of the content
+			b, err := json.Marshal(m)
+			if err != nil {
+				panic(err)
+			}
+			m["run"] = run
+			w.lines = append(w.lines, append(b, '\n'))
+			return
+		}
+	}
 	if err := w.enc.Encode(v); err != nil {
 		panic(err)
 	}
@@ -413,20 +458,15 @@ func c19RunSched(t *testing.T, w *c19Writer, run int, sc c19Sched) (stuck bool) 
 		if err := r.srv.Stop(); err != nil {
 			t.Fatalf("run %d: stop: %v", run, err)
 		}
-		deadline := time.Now().Add(c19FlushTimeout)
+		// removeAll(nil) runs in the loop goroutine after Stop returned: wait for its effect
+		tm := time.NewTimer(c19FlushTimeout)
 		for _, s := range r.subs {
-			for {
-				select {
-				case <-s.sub.Cancelled():
-				default:
-					if time.Now().Before(deadline) {
-						time.Sleep(200 * time.Microsecond)
-						continue
-					}
-				}
-				break
+			select {
+			case <-s.sub.Cancelled():
+			case <-tm.C:
 			}
 		}
+		tm.Stop()
 		emit(c19Step{Op: "Stop"}, "ok", 0, false, false)
 	}
 	for _, s := range r.subs {
@@ -474,23 +514,37 @@ func TestVerifC19PubSub(t *testing.T) {
 
 	// ---------------- schedules, each repeated (Go map iteration order differs per run)
 	wp := newC19Writer(outDir + "/pubsub.ndjson")
-	run, nstuck := 0, 0
-	for _, sc := range in.Scheds {
+	run, nstuck, nwritten := 0, 0, 0
+	summary := []map[string]int{}
+	for si, sc := range in.Scheds {
 		reps := sc.Reps
 		if reps < 1 {
 			reps = 1
 		}
+		seen := map[[20]byte]bool{}
+		done := 0
 		for k := 0; k < reps; k++ {
 			run++
-			if c19RunSched(t, wp, run, sc) {
+			done++
+			wp.begin()
+			stuck := c19RunSched(t, wp, run, sc)
+			if wp.end(seen, stuck) {
+				nwritten++
+			}
+			if stuck {
 				nstuck++
 				break // a wedged loop costs a timeout each time: one witness per schedule is enough
 			}
 		}
+		summary = append(summary, map[string]int{"sched": si, "runs": done, "distinct": len(seen)})
 		if nstuck >= 6 {
 			break
 		}
 	}
 	wp.f.Close()
-	t.Logf("C19 pubsub harness: %d eval cases, %d runs, %d events, %d stuck", we.n, run, wp.n, nstuck)
+	sb, _ := json.Marshal(summary)
+	if err := os.WriteFile(outDir+"/summary.json", sb, 0o644); err != nil {
+		t.Fatal(err)
+	}
+	t.Logf("C19 pubsub harness: %d eval cases, %d runs (%d distinct written), %d events, %d stuck", we.n, run, nwritten, wp.n, nstuck)
 }
